@@ -2,6 +2,7 @@
 import re
 from . import suite, gen_prog
 from .propbase import *
+from . import basesuites
 
 NOISE_WS = ["  ", "\t", " \t ", " ", "   ", "\u00a0", "\u3000", " \x0b", "\u2003 ", "\x85", "\u205f", "\u1680", "\u202f"]
 NOISE_PUNCT = ["!", "?", ";", ":", " !", "?!"]
@@ -50,6 +51,7 @@ def add_noise(rng, src):
 
 def run(chk):
     proved = setup(chk, "C02")
+    basesuites.run_f64(chk, 1500 if chk.tier == "quick" else 20000)
     rng = rng_for(chk, 2)
     quick = chk.tier == "quick"
     n = 220 if quick else 2500
